@@ -254,6 +254,8 @@ where
                             if let Err(e) = sender.send(max_window.1.clone()) {
                                 warn!("Failed to send window content to consumer: {:?}", e);
                             }
+                            #[cfg(kolibrie_verif)]
+                            crate::verif_sched::note_send();
                         }
                         // single threaded consumer using callback
                         if let Some(call_back) = &mut self.call_back {
